@@ -192,7 +192,7 @@ func c18RefGen(rt *rapid.T) c18Case {
 }
 
 func TestVerif_C18_refresource(t *testing.T) {
-	kit.Run(t, c18ID, "refresource", kit.Opts{Quick: 6000, Thorough: 240000}, c18RefGen,
+	kit.Run(t, c18ID, "refresource", kit.Opts{Quick: 6000, Thorough: 200000}, c18RefGen,
 		func(c c18Case) kit.Verdict { return c18RefInterp(t, c) })
 }
 
@@ -372,7 +372,7 @@ func c18ManagedGen(rt *rapid.T) c18Case {
 }
 
 func TestVerif_C18_managedresource(t *testing.T) {
-	kit.Run(t, c18ID, "managedresource", kit.Opts{Quick: 5000, Thorough: 160000}, c18ManagedGen,
+	kit.Run(t, c18ID, "managedresource", kit.Opts{Quick: 5000, Thorough: 140000}, c18ManagedGen,
 		func(c c18Case) kit.Verdict { return c18ManagedInterp(t, c) })
 }
 
@@ -541,6 +541,6 @@ func c18ImmutableGen(rt *rapid.T) c18ImmCase {
 }
 
 func TestVerif_C18_immutableresource(t *testing.T) {
-	kit.Run(t, c18ID, "immutableresource", kit.Opts{Quick: 5000, Thorough: 160000}, c18ImmutableGen,
+	kit.Run(t, c18ID, "immutableresource", kit.Opts{Quick: 5000, Thorough: 140000}, c18ImmutableGen,
 		func(c c18ImmCase) kit.Verdict { return c18ImmutableInterp(t, c) })
 }
